@@ -227,4 +227,26 @@ CHECKS["C04"] = {
     "level_note": "Trusted: the reference model in harness/c05_coll.cpp; TSOutputView/TSInputView accessors as the observation points.",
 }
 
+CHECKS["C20"] = {
+    "title": "Recording a time-series and replaying it reproduces the same ticks",
+    "level": "model_checking",
+    "technique": "exhaustive enumeration of mutation histories per shape; the real record node's buffer is replayed by the real replay node into a "
+                 "second graph and re-recorded; buffers and tick streams of the two runs are compared cycle by cycle",
+    "design_ref": "DESIGN.md 2/C20",
+    "parts": [{"name": "roundtrip", "exe": "c20_replay", "sources": ["c20_replay.cpp"], "shards": 16}],
+    "rule": "shapes: TS<Int>, TS<Str>, SIGNAL, TSS<Int>, TSD<Int,TS<Int>>, TSD<Int,TSS<Int>>, TSD<Int,TSB{a,b}>, TSL<TS<Int>,2>, TSL<TSS<Int>,2>, "
+            "TSB{a,b}, TSB{d:TSD<Int,TS<Int>>, x:TS<Int>}, TSW<Int,3,2>; histories: every sequence over T cycles of lists of <= L mutations from the "
+            "shape's alphabet (gaps, removals, child-only ticks, same-cycle cancellations, bulk growth). Graph 1: scripted writer -> record + probe. "
+            "Graph 2: replay(buffer of graph 1) -> record + probe. Oracle: both recordings hold the same delta in the same cycle (canonical text "
+            "of the captured Values, empty sub-deltas pruned) and both probes log the same (cycle, delta, value) stream. Because replay applies "
+            "each delta to an output that received all earlier deltas and record captures again, this is also the equivalent form of the statement. "
+            "states = distinct original tick traces; transitions = ticks compared; non-trivial = histories with several mutations in one cycle.",
+    "bounds": {"quick": "L<=2 x T=3 (collections), L=1 x T=6..7 (scalar/signal/window), L<=3 x T=2", "thorough": "L<=2 x T=4 (collections), T=7..8 (scalar shapes), L<=3 x T=2"},
+    "min_counters": {"quick": {"nontrivial": 100000, "states": 5000, "roundtrip.cases_tsdb": 10000}},
+    "assumptions": COMMON_ASSUMPTIONS + ["A tick whose net delta is empty is treated as no tick on both sides unless it changes the value (first validating empty tick).",
+                                           "Table/frame recorders and duration windows are not explored."],
+    "level_text": "Every execution is a pair of traces of the real record and replay nodes validated against each other cycle by cycle.",
+    "level_note": "Trusted: Value::to_string as a faithful rendering of a captured delta; the scripted writer as the source of truth for what was written.",
+}
+
 NOT_APPLICABLE = {}
